@@ -114,6 +114,8 @@ pub fn gen_case(t: &mut Tape, excl: &[usize]) -> Case {
     // an extra method that returns a borrow: from the receiver / the dependency (elided or named lifetime) or from an argument
     let borrow_kind: Option<usize> = if t.chance(1, 3) { Some(t.choose(3)) } else { None };
     let borrow_kind = borrow_kind.filter(|k| !excl.contains(k));
+    // a `&mut self` method next to the `&self` ones (static selection: the block's fn still takes `&impl Deps`)
+    let mut_method = !dynamic && t.chance(1, 4);
     let n_targets = t.range(2, 3);
     let at = if use_async_trait { "#[::async_trait::async_trait]\n" } else { "" };
     let trait_attr = if dynamic { "TrImpl, delegate_by = ref".to_string() } else { "TrImpl, delegate_by = DelegateTr".to_string() };
@@ -134,22 +136,50 @@ pub fn gen_case(t: &mut Tape, excl: &[usize]) -> Case {
         src.push_str(&format!("#[::entrait::entrait(pub Dep{d})]\nfn dep{d}(_deps: &impl Sized) -> u32 {{ {} }}\n", d + 1));
     }
     src.push_str("#[::entrait::entrait]\npub trait GDep<E> { fn gdep(&self) -> u32; }\n");
+    // trait and / or the first block may come out of a `macro_rules!` expansion in which one method has two parameters of
+    // one spelling (one written in the macro, one passed in): different identifiers, told apart by their spans only
+    let same_spelled: Option<(usize, usize, usize)> = methods.iter().enumerate().find_map(|(mi, m)| {
+        let plain: Vec<usize> = m.params.iter().enumerate().filter(|(_, p)| p.pk == PK::Plain).map(|(i, _)| i).collect();
+        (plain.len() >= 2).then(|| (mi, plain[0], plain[plain.len() - 1]))
+    });
+    let hygiene_trait = same_spelled.filter(|_| t.chance(1, 8));
+    let hygiene_block = same_spelled.filter(|_| t.chance(1, 8));
+    let mut trait_methods = methods.clone();
+    if let Some((mi, _, j)) = hygiene_trait {
+        trait_methods[mi].params[j].name = "$p".to_string();
+        src.push_str("macro_rules! __mk_tr { ($p:ident) => {\n");
+    }
     src.push_str(&format!("/*GEN*/ #[::entrait::entrait({trait_attr})]\n{at}pub trait Tr {{\n"));
-    for m in &methods {
+    for m in &trait_methods {
         src.push_str(&format!("    {};\n", trait_sig(m)));
     }
     if let Some(k) = borrow_kind {
         src.push_str(&format!("    {};\n", borrow_method(k, 0).0));
     }
+    if mut_method {
+        src.push_str("    fn record(&mut self, level: u8, line: &str) -> String;\n");
+    }
     src.push_str("}\n");
+    if let Some((mi, i, _)) = hygiene_trait {
+        src.push_str(&format!("}} }}\n__mk_tr!({});\n", methods[mi].params[i].name));
+    }
     let mut max_deps = 0;
     for x in 0..n_targets {
+        let block_methods: Vec<Method> = match hygiene_block {
+            Some((mi, _, j)) if x == 0 => {
+                let mut ms = methods.clone();
+                ms[mi].params[j].name = "$p".to_string();
+                src.push_str("macro_rules! __mk_block { ($p:ident) => {\n");
+                ms
+            }
+            _ => methods.clone(),
+        };
         src.push_str(&format!("pub struct X{x};\n/*GEN*/ #[::entrait::entrait{}]\n", if dynamic { "(ref)" } else { "" }));
         if use_async_trait {
             src.push_str("/*GEN*/ #[::async_trait::async_trait]\n");
         }
         src.push_str(&format!("/*GEN*/ impl TrImpl for X{x} {{\n/*TWIN*/ impl X{x} {{\n"));
-        for m in &methods {
+        for m in &block_methods {
             let nd = t.weighted(&[3, 3, 2, 1, 1]);
             let mut deps = vec![];
             for _ in 0..nd {
@@ -165,7 +195,13 @@ pub fn gen_case(t: &mut Tape, excl: &[usize]) -> Case {
         if let Some(k) = borrow_kind {
             src.push_str(&format!("    {}", borrow_method(k, x).1));
         }
+        if mut_method {
+            src.push_str(&format!("    pub fn record(deps: &impl Sized, level: u8, line: &str) -> String {{ let __r = format!(\"X{x}.REC|{{}}|{{}},{{}}\", rt::addr(deps), level, line); rt::trace(__r.clone()); __r }}\n"));
+        }
         src.push_str("}\n");
+        if let (Some((mi, i, _)), 0) = (hygiene_block, x) {
+            src.push_str(&format!("}} }}\n__mk_block!({});\n", methods[mi].params[i].name));
+        }
     }
     // apps: A_k selects target k % n_targets ... with at least two different targets
     let n_apps = n_targets;
@@ -218,6 +254,16 @@ pub fn gen_case(t: &mut Tape, excl: &[usize]) -> Case {
             src.push_str("    }\n");
         }
     }
+    if mut_method {
+        for a in 0..n_apps {
+            src.push_str(&format!("    {{\n        let mut mapp = ::entrait::Impl::new(mk_a{a}());\n        let _ = rt::take();\n"));
+            src.push_str(&format!("        let direct = X{a}::record(&mapp, 3, \"ln\");\n        let t_direct = rt::take();\n"));
+            src.push_str("/*GEN*/ let via = Tr::record(&mut mapp, 3, \"ln\");\n        let t_via = rt::take();\n");
+            src.push_str(&format!("/*GEN*/ rt::expect_eq(&mut fails, \"app{a} `&mut self` method: result through Impl<A{a}> vs X{a}::record\", &via, &direct);\n"));
+            src.push_str(&format!("/*GEN*/ rt::expect_eq(&mut fails, \"app{a} `&mut self` method: call trace\", &t_via, &t_direct);\n"));
+            src.push_str("    }\n");
+        }
+    }
     src.push_str("    fails\n}\n");
     let same_sig = methods.windows(2).any(|w| trait_sig(&w[0]).replace(&w[0].name, "") == trait_sig(&w[1]).replace(&w[1].name, ""));
     let same_typed = methods.iter().any(|m| m.params.windows(2).any(|w| w[0].vt == w[1].vt));
@@ -239,6 +285,15 @@ pub fn gen_case(t: &mut Tape, excl: &[usize]) -> Case {
     }
     if n_targets >= 3 {
         classes.push("three_targets");
+    }
+    if mut_method {
+        classes.push("mut_self_method");
+    }
+    if hygiene_trait.is_some() {
+        classes.push("trait_from_macro_rules_with_same_spelled_parameters");
+    }
+    if hygiene_block.is_some() {
+        classes.push("block_from_macro_rules_with_same_spelled_parameters");
     }
     if let Some(k) = borrow_kind {
         classes.push(["borrowed_return:receiver_elided", "borrowed_return:receiver_named", "borrowed_return:argument_named"][k]);
